@@ -16,8 +16,8 @@ from vf import runner, gen, calls
 
 LEVEL = "model_checking"
 PLAN_QUICK = [(["id"], 3, 1), (["sum", "logsumexp"], 2, 1), (["add"], 2, 0), (["dot"], 2, 1), (["get_at"], 2, 0), (["set_at", "add_at"], 2, 0), (["set_at"], 1, 1), (["flip", "argmax", "sort", "softmax"], 2, 1)]
-PLAN_THOROUGH = [(["id"], 3, 2), (["sum", "logsumexp", "mean"], 3, 1), (["add", "where"], 2, 1), (["dot"], 3, 1), (["get_at"], 2, 1), (["set_at", "add_at", "subtract_at"], 2, 1), (["set_at"], 3, 0),
-                 (["flip", "argmax", "sort", "softmax", "roll"], 3, 1)]
+PLAN_THOROUGH = [(["id"], 3, 1), (["id"], 2, 2), (["sum", "logsumexp", "mean"], 3, 1), (["add"], 2, 1), (["where"], 1, 1), (["dot"], 3, 0), (["dot"], 2, 1), (["get_at"], 2, 1), (["set_at", "add_at", "subtract_at"], 2, 0),
+                 (["set_at"], 3, 0), (["set_at"], 1, 1), (["flip", "argmax", "sort", "softmax", "roll"], 3, 1)]
 EXTRA = [  # descriptions chosen for their solver / CSE load and for duplicate-sensitive updates
     ("id", "b (s ds)... c -> b s... ds... c", [(2, 4, 6, 3)], {"ds": (2, 2)}),
     ("id", "(a b) (c d) -> (a c) (b d)", [(6, 6)], {"a": 2, "c": 3}),
@@ -110,7 +110,7 @@ def spawn(items, mode, hashseed, cache_env, nparts):
 
 def run(ctx):
     items = corpus_items(ctx.tier)
-    seeds = [0, 1, 2, 3] if ctx.tier == "quick" else list(range(12))
+    seeds = [0, 1, 2, 3] if ctx.tier == "quick" else list(range(8))
     nparts = max(1, 16 // len(seeds))
     # (A) separate processes under different hash seeds -- all started together
     import concurrent.futures as cf
